@@ -53,7 +53,7 @@ var c10Cmd = func() parser.CommandConfig {
 	return c
 }()
 
-const c10Contexts = 12
+const c10Contexts = 13
 
 func c10Valid(seq []argTok) bool {
 	texts := map[string]bool{}
@@ -238,6 +238,10 @@ func runC10(tier string) int {
 					case 11: // the command is an AutoVar command standing in the middle of a condition (it is rendered like a statement, before its comparison)
 						src = "script S {\n\tif (flag(A) && " + csrc + " && flag(B) || flag(C)) {\n\t\tx\n\t}\n}\n"
 						want = []string{"\t" + cout, "\tcompare VAR_RESULT, 0"}
+					case 12: // inside the inline script of a table entry of the FIRST of two tables of a mapscripts statement
+						src = "mapscripts M {\n\tT1 [\n\t\tVAR_A, 1 {\n\t\t\tpre\n\t\t\t" + csrc + "\n\t\t\tpost\n\t\t}\n\t]\n\tT2 [\n\t\tVAR_B, 2 {\n\t\t\tother\n\t\t}\n\t]\n}\n"
+						cout = strings.ReplaceAll(strings.ReplaceAll(cout, "S_Movement_0", "M_T1_0_Movement_0"), "S_Text_0", "M_T1_0_Text_0")
+						want = []string{"\tpre", "\t" + cout, "\tpost"}
 					case 10: // after a command whose moves() is one step spelled like this command's two steps joined, and whose text is spelled like this command's text with its type
 						src = "script S {\n\tpre(moves(ud), braille\"hi\")\n\t" + csrc + "\n}\n"
 						cout = strings.ReplaceAll(strings.ReplaceAll(cout, "S_Movement_0", "S_Movement_1"), "S_Text_0", "S_Text_1")
@@ -247,7 +251,7 @@ func runC10(tier string) int {
 						want = []string{"\tpre", "\t" + cout, "\tpost"}
 					}
 					src = "const K = 5\nconst K2 = 1 + 2\n" + src
-					res := comp.Compile(src, comp.Opts{Optimize: true, Switches: map[string]string{"PV": "SEL"}, Cmd: c10Cmd})
+					res := comp.Compile(src, comp.Opts{Optimize: true, Switches: c10Switches(), Cmd: c10Cmd})
 					r.Add("evaluations", 1)
 					if nargs >= 2 && hasParen {
 						r.Add("nontrivial", 1)
@@ -282,6 +286,17 @@ func runC10(tier string) int {
 						if hasMoves && !strings.Contains(res.Out, "S_Movement_1:\n\tu\n\td\n\tstep_end") {
 							wantAll = append(wantAll, "<missing: S_Movement_1 with u d step_end>")
 						}
+					} else if ctx == 12 {
+						if blk := strings.Replace(strings.Replace(textBlock, "_X", "_0", 1), "S_Text", "M_T1_0_Text", 1); hasText && !strings.Contains(res.Out, blk) {
+							wantAll = append(wantAll, "<missing: "+blk+">")
+						}
+						if hasMoves && !strings.Contains(res.Out, "M_T1_0_Movement_0:\n\tu\n\td\n\tstep_end") {
+							wantAll = append(wantAll, "<missing: M_T1_0_Movement_0 with u d step_end>")
+						}
+						// commands are never duplicated: the stretch occurs once in the file
+						if n := strings.Count(res.Out, "\tpre\n"); n != 1 {
+							wantAll = append(wantAll, fmt.Sprintf("<the command 'pre' occurs %d times in the output>", n))
+						}
 					} else if ctx >= 4 {
 						if blk := strings.Replace(textBlock, "_X", "_0", 1); hasText && !strings.Contains(res.Out, blk) {
 							wantAll = append(wantAll, "<missing: "+blk+">")
@@ -298,7 +313,7 @@ func runC10(tier string) int {
 							Summary: fmt.Sprintf("command %q ctx=%d:\n  emitted %q\n  want    %q", csrc, ctx, res.Out, strings.Join(wantAll, "\n")),
 							Replay:  map[string]interface{}{"source": src, "want": strings.Join(wantAll, "\n"), "output": res.Out},
 							Recheck: func() bool {
-								return comp.Compile(s2, comp.Opts{Optimize: true, Switches: map[string]string{"PV": "SEL"}, Cmd: c10Cmd}).Out == res.Out
+								return comp.Compile(s2, comp.Opts{Optimize: true, Switches: c10Switches(), Cmd: c10Cmd}).Out == res.Out
 							},
 						})
 					} else if r.WantSample() && nargs >= 3 && hasParen {
@@ -413,5 +428,12 @@ func runC10(tier string) int {
 	r.Assume("expected line = name, then the source tokens joined by single spaces with no space before a comma; constants replaced by their value; an inline text / moves() that is a whole argument replaced by its label",
 		"no empty arguments, inline data only as whole arguments, parentheses balanced to depth 2 (the property's domain)")
 	return r.Finish(r.Get("evaluations"), r.Get("nontrivial"),
-		"every argument token sequence of length <= L over a 26-token alphabet (a two-part text with a run of comment lines between the parts, an ascii text ending in 0, identifiers incl. multi-byte, keywords, decimal/negative/hex numbers, operators, an illegal character, parentheses, comma, two constants, inline text, moves()) that is in the domain, with 11 command names incl. case variants of end / return / goto / call (all names for <= 1 token, rotating beyond), in 12 contexts (as an AutoVar command in the middle of a condition, after a command whose inline data are spelled like this command's data joined / typed, alone, middle of a stretch, twice in a row, all on one line, inside an if body, inside a poryswitch case selected through _ / directly, last command of an if body / loop body / switch case); plus every identifier-like literal of the compiler's own source as command name and as argument in 3 contexts; plus commands with K arguments and stretches of K commands for every K up to the bound in the coverage; the whole emitted file is compared byte for byte with the generator's expectation; non-trivial = >= 2 arguments and nested parentheses")
+		"every argument token sequence of length <= L over a 26-token alphabet (a two-part text with a run of comment lines between the parts, an ascii text ending in 0, identifiers incl. multi-byte, keywords, decimal/negative/hex numbers, operators, an illegal character, parentheses, comma, two constants, inline text, moves()) that is in the domain, with 11 command names incl. case variants of end / return / goto / call (all names for <= 1 token, rotating beyond), in 13 contexts (in the inline script of the first of two tables of a mapscripts statement, as an AutoVar command in the middle of a condition, after a command whose inline data are spelled like this command's data joined / typed, alone, middle of a stretch, twice in a row, all on one line, inside an if body, inside a poryswitch case selected through _ / directly, last command of an if body / loop body / switch case); plus every identifier-like literal of the compiler's own source as command name and as argument in 3 contexts; plus commands with K arguments and stretches of K commands for every K up to the bound in the coverage; the whole emitted file is compared byte for byte with the generator's expectation; non-trivial = >= 2 arguments and nested parentheses")
+}
+
+// c10Switches: the compile switches of every C10 compilation. Besides PV (which selects the poryswitch cases of the
+// contexts) there are switches named like command names, arguments and constants of the programs: a switch is only
+// consulted by poryswitch.
+func c10Switches() map[string]string {
+	return map[string]string{"PV": "SEL", "a": "SW_a", "pre": "SW_pre", "foo": "SW_foo", "K": "SW_K", "u": "SW_u", "hi": "SW_hi", "x": "SW_x"}
 }
